@@ -373,6 +373,8 @@ func (x *Exec) globalValue(fr *Frame, st *State, obj *types.Var) Value {
 			x.errIDs[obj] = id
 		}
 		v = OpaqueV{T: IntLit(id), Type: t}
+	} else if cv := x.constInitOf(obj); cv != nil {
+		v = cv
 	} else if cm := x.constMapOf(obj); cm != nil {
 		v = MapV{ID: IntLit(int64(-1 - len(x.constMaps))), Type: t.Underlying().(*types.Map), Const: cm}
 	} else {
@@ -1854,4 +1856,88 @@ func (x *Exec) globalHasInit(obj *types.Var) bool {
 		}
 	}
 	return false
+}
+
+// constInitOf: a package-level variable of basic type whose initialiser is a
+// constant expression and which is never assigned (nor has its address taken)
+// anywhere in the loaded module packages is treated as that constant.
+func (x *Exec) constInitOf(obj *types.Var) Value {
+	if _, ok := obj.Type().Underlying().(*types.Basic); !ok {
+		return nil
+	}
+	pkg := x.L.pkgOf(obj.Pkg().Path())
+	if pkg == nil {
+		return nil
+	}
+	var init ast.Expr
+	for _, f := range pkg.Syntax {
+		for _, d := range f.Decls {
+			gd, ok := d.(*ast.GenDecl)
+			if !ok || gd.Tok != token.VAR {
+				continue
+			}
+			for _, sp := range gd.Specs {
+				vs := sp.(*ast.ValueSpec)
+				for i, n := range vs.Names {
+					if pkg.TypesInfo.Defs[n] == obj && i < len(vs.Values) {
+						init = vs.Values[i]
+					}
+				}
+			}
+		}
+	}
+	if init == nil {
+		return nil
+	}
+	tv, ok := pkg.TypesInfo.Types[init]
+	if !ok || tv.Value == nil {
+		return nil
+	}
+	// never written?
+	written := false
+	for path, p := range x.L.Pkgs {
+		if !inModule(path) || p.TypesInfo == nil {
+			continue
+		}
+		for _, f := range p.Syntax {
+			ast.Inspect(f, func(n ast.Node) bool {
+				mark := func(e ast.Expr) {
+					for {
+						switch t := ast.Unparen(e).(type) {
+						case *ast.Ident:
+							if p.TypesInfo.Uses[t] == obj {
+								written = true
+							}
+							return
+						case *ast.SelectorExpr:
+							if p.TypesInfo.Uses[t.Sel] == obj {
+								written = true
+							}
+							return
+						default:
+							return
+						}
+					}
+				}
+				switch s := n.(type) {
+				case *ast.AssignStmt:
+					for _, l := range s.Lhs {
+						mark(l)
+					}
+				case *ast.IncDecStmt:
+					mark(s.X)
+				case *ast.UnaryExpr:
+					if s.Op == token.AND {
+						mark(s.X)
+					}
+				}
+				return true
+			})
+		}
+	}
+	if written {
+		return nil
+	}
+	x.Trusted["package-level variable "+obj.Pkg().Name()+"."+obj.Name()+" is never assigned: treated as its constant initialiser"] = true
+	return x.constValue(x.resolveType(obj.Type()), tv.Value)
 }
